@@ -1,6 +1,7 @@
 SPECIFICATION MCSpec
 CONSTANTS Malformed = "strict"
+ ApiErr = "strict"
  Variant = "none"
  AltForks = {"electra"}
-INVARIANTS Safety Progress ClientFault4xx
+INVARIANTS Safety Progress ClientFault4xx UpstreamStatusKept
 CHECK_DEADLOCK FALSE
